@@ -14,7 +14,7 @@ def optF (s : String) : Option Float := if s == "-" || s == "" then none else so
 
 def lits : Lits Float :=
   { zero := 0.0, one := 1.0, two := 2.0, four := 4.0, half := 0.5, tenth := 0.1, p8 := 0.8, p99 := 0.99, quarter := 0.25,
-    thet := 0.001, quot1 := 1.0, quot2 := 1.2, em4 := 1e-4, twenty := 20.0, em2 := 1e-2, ten := 10.0, p03 := 0.03, em6 := 1.0e-6 }
+    thet := 0.001, quot1 := 1.0, quot2 := 1.2, em4 := 1e-4, twenty := 20.0, em2 := 1e-2, ten := 10.0, p03 := 0.03, em6 := 1.0e-6, stretch := 1.01 }
 
 def flagOf (s : String) : Flag := if s == "1" then .interrupt else if s == "2" then .modified else .cont
 
